@@ -77,6 +77,8 @@ structure Params where
   minPurchase : Int
   stakingRate : Dec
   payoutPeriod : Int
+  claimMinDeposit : Int := 0
+  claimDepositRate : Dec := Dec.zero
   deriving Inhabited, DecidableEq
 
 structure State where
@@ -414,6 +416,19 @@ def withdrawReimbursement (e : Env) (l : Ledger) (s : State) (pid : Nat) (a : Ad
       | .ok l' => .ok (l', { s with reimbs := s.reimbs.filter (·.pid != pid) })
 
 /-! ## claims -/
+
+/-- Admission of a claim proposal (x/gov/keeper/msg_server.go `validateProposalByType`): `none` = admitted.
+    `holder` is the proposer named in the claim, `deposit` the initial deposit in the bond denomination. -/
+def claimAdmissible (s : State) (now : Int) (holder : Addr) (poolID purchaseID : Nat) (loss deposit : Int) : Option String :=
+  if Dec.lt (Dec.ofInt deposit) (Dec.mul (Dec.ofInt loss) s.params.claimDepositRate) || deposit < s.params.claimMinDeposit then some "deposit-too-small"
+  else match findList s poolID holder with
+  | none => some "no-purchase-list"
+  | some l => match l.entries.find? (·.id == purchaseID) with
+    | none => some "purchase-not-held"
+    | some en =>
+      if !(en.shield ≥ loss) then some "shield-below-loss"
+      else if en.endTime < now then some "protection-ended"
+      else none
 
 /-- `DelayWithdraws`: push the provider's latest withdrawals maturing by `until_` back to `until_` -/
 def delayLoop (a : Addr) (until_ : Int) : List Withdraw → Int → List Withdraw → Except Err (List Withdraw)
